@@ -154,6 +154,13 @@ for _ in range(3000 if tier == "quick" else 120000):
     k = rng.randint(2, 9)
     doc = "\n".join(rng.choice(LINE_START) + rng.choice(INLINE) for _ in range(k))
     run(doc, rng.choice(OPTS), "line-structured")
+# exhaustive short documents over the structurally interesting line forms (list item > ref > table > cell > list ...)
+CORE = ["*<ref>", "{|", "|", "** q", "! z", "|-", "|}", "* a", "</ref>"]
+for n in range(1, 6 if tier == "quick" else 7):
+    for t in itertools.product(CORE, repeat=n):
+        if n == 6 and rng.random() > 0.25:
+            continue
+        run("\n".join(t), {}, "core-lines")
 # deep nesting
 for tok_open, tok_close in (("<b>", "</b>"), ("[[", "]]"), ("{{a|", "}}"), ("* ", "\n"), ("<div>", "</div>"), ("''", "''")):
     run(tok_open * 100 + "x" + tok_close * 100, {}, "nesting-100")
